@@ -22,7 +22,8 @@ RANGE_OPS = ["range", "occ", "active", "iter"]
 SHAPE_OPS = ["rshape", "shape", "ashape", "rshaperef", "shaperef", "ashaperef"]
 CO_OPS = ["co" + o for o in SHAPE_OPS]
 OLD_SAVED = 77
-TOUCHES = ("getActive", "getShape", "eq", "len", "project", "prune", "isEmpty", "and")
+TOUCHES = ("getActive", "getShape", "eq", "len", "project", "prune", "isEmpty", "and", "iter", "iterActive", "iterShape",
+           "iterActiveShape", "getPayload", "countValues")
 
 _attrs = None
 
@@ -187,6 +188,273 @@ def gen_random(seed, tier):
             yield _base("prune", t, pred=pred, sp=sp, os=os_, oe=oe_, **common)
 
 
+# ---------------------------------------------------------------------------------------
+# widening: formats set through the rank attributes, estimated rank extents, fibers of a lower (ragged) rank,
+# value kinds, boxed start positions, negative steps, lazy operands, state between traversals, wide coordinates
+# ---------------------------------------------------------------------------------------
+SUBPOOL = [[], [[0, 1]], [[1, 0], [3, 2]], [[0, 1], [4, 1]], [[2, 0]], [[1, 5], [2, 0], [6, 1]]]
+WIDE = [8, 9, 10, 11, 99, 100, 101]
+BETWEEN = [["getActive"], ["iter", "iterActiveShape"], ["eq", "len", "getShape"], ["project", "prune", "and"],
+           ["getPayload", "countValues", "iterShape", "iterActive"]]
+
+
+def _sub_case(op, root, idx, tshape, fmts, **kw):
+    """traversal of the fiber stored at position idx of the top rank of a 2-rank tensor"""
+    c = _base(op, root[idx][1], kind="owned", root=root, sub=idx, fmts=fmts, fmt=fmts[1], tshape=tshape, **kw)
+    if tshape is None:
+        c["sibs"] = [x[1] for x in root]
+    else:
+        c["shape"] = tshape[1]
+    return c
+
+
+def _root_case(op, t, d, tshape, fmts, **kw):
+    """traversal of the root of a (d+1)-rank tensor whose extents are declared (tshape) or estimated (None)"""
+    c = _base(op, t, d=d, kind="owned", fmts=fmts, fmt=fmts[0], tshape=tshape, **kw)
+    if tshape is None:
+        c["sibs"] = [t]
+    else:
+        c["shape"] = tshape[0]
+    if d >= 1 and fmts[1] == "U":
+        c["lowerU"] = True
+    return c
+
+
+def gen_wide_small(tier):
+    n = 3
+    fibs = list(H.all_leaf_fibers(n, [0, 1]))
+    q = tier == "quick"
+    some = fibs[::3] if q else fibs
+    # negative steps (descending dense traversal; Ref inserts at the sorted position all the same)
+    for t in (fibs[::2] if q else fibs):
+        for (s, e) in ((n, -1), (n + 1, 0), (1, 1), (0, 3), (2, -2)):
+            for step in (-1, -2, -3):
+                yield _base("rshape", t, s=s, e=e, step=step)
+                yield _base("rshaperef", t, s=s, e=e, step=step)
+    for a in some:
+        for b in some[:5]:
+            for op in ("corshape", "corshaperef"):
+                yield _base(op, None, ts=[a, b], s=n, e=-1, step=-2)
+    # format set on the fiber's own rank attributes after construction; estimated extent of an owned root
+    for t in fibs:
+        for shape in (None, 5):
+            for op, kw in (("iter", {}), ("ashape", {}), ("prune", {"pred": {"kind": "all"}, "sp": None}),
+                           ("project", {"k": 1, "m": 0, "iv": None, "sp": None}), ("coashape", {})):
+                c = _base(op, None if op == "coashape" else t, fmt="U", fmtvia="setter", shape=shape, **kw)
+                if op == "coashape":
+                    c["ts"] = [t, [[1, 1]]]
+                yield c
+        for fmt in ("C", "U"):
+            for op in ("shape", "ashape", "shaperef", "ashaperef", "active", "iter", "occ"):
+                yield _root_case(op, t, 0, None, [fmt], sp=None, old=OLD_SAVED)
+    # fibers of the second rank of a ragged 2-rank tensor, extents declared or estimated, every C/U mix
+    roots = [[[0, a], [2, b]] for a in SUBPOOL for b in SUBPOOL] + \
+            [[[0, a], [1, b], [5, c]] for a in SUBPOOL[:3] for b in SUBPOOL[3:] for c in SUBPOOL[1:4]]
+    lazy_kw = {"project": {"k": 1, "m": 1, "iv": None, "sp": None}, "projectrev": {"k": -1, "m": 4, "iv": None, "sp": None},
+               "prune": {"pred": {"kind": "cmod", "a": 2, "b": 0}, "sp": None}}
+    k = 0
+    for root in roots:
+        for idx in range(len(root)):
+            for tshape in (None, [7, 5], [7, 3]):
+                for fmts in (["C", "C"], ["C", "U"], ["U", "C"], ["U", "U"]):
+                    for op in ("shape", "ashape", "active", "iter", "shaperef", "ashaperef", "project", "projectrev", "prune"):
+                        k += 1
+                        if q and k % 7:
+                            continue
+                        if op in lazy_kw:
+                            yield _sub_case(op.replace("rev", ""), root, idx, tshape, fmts, **lazy_kw[op])
+                        else:
+                            yield _sub_case(op, root, idx, tshape, fmts, sp=None, old=OLD_SAVED)
+    # roots of 2-rank tensors with a C/U mix (materialisation copies sub-fibers of a U rank densely)
+    for root in roots[::2 if q else 1]:
+        for tshape in (None, [7, 8]):
+            for fmts in (["C", "U"], ["U", "U"], ["U", "C"]):
+                for op in ("project", "projectrev", "prune", "ashape", "shaperef", "iter", "active"):
+                    k += 1
+                    if q and k % 3:
+                        continue
+                    if op in lazy_kw:
+                        yield _root_case(op.replace("rev", ""), root, 1, tshape, fmts, **lazy_kw[op])
+                    else:
+                        yield _root_case(op, root, 1, tshape, fmts, sp=None, old=OLD_SAVED)
+    # the fibers carry default 0, the tensor default 7: the rank's default decides what is empty / stands in
+    for t in H.all_leaf_fibers(n, [0, 7, 1]):
+        k += 1
+        if q and k % 2:
+            continue
+        for op, kw in (("occ", {"sp": None}), ("rshape", {"s": -1, "e": 4, "step": 1}), ("shaperef", {}),
+                       ("project", {"k": -1, "m": 3, "iv": None, "sp": None}),
+                       ("prune", {"pred": {"kind": "all"}, "sp": None})):
+            yield _base(op, t, kind="owned", dflt=7, fdflt=0, shape=4, old=OLD_SAVED, **kw)
+    # value kinds: float / string leaves and defaults (the model keeps the integer codes)
+    for vk in ("float", "str"):
+        for dflt, states in ((0, [0, 1]), (7, [7, 0])):
+            for t in H.all_leaf_fibers(n, states):
+                k += 1
+                if q and k % 2:
+                    continue
+                for op, kw in (("occ", {"sp": None}), ("range", {"s": 1, "e": 3, "sp": None}),
+                               ("rshape", {"s": -1, "e": 4, "step": 2}), ("rshaperef", {"s": 0, "e": 4, "step": 1}),
+                               ("project", {"k": -1, "m": 3, "iv": [1, 4], "sp": None}),
+                               ("prune", {"pred": {"kind": "imask", "bits": [1, 0, 1]}, "sp": None})):
+                    yield _base(op, t, vk=vk, dflt=dflt, old=OLD_SAVED, **kw)
+                yield _base("coshape", None, ts=[t, [[1, 1]]], vk=vk, dflt=dflt)
+    # start positions boxed in a Payload
+    for t in some:
+        for sp in _sps(t):
+            if sp is None:
+                continue
+            for op, kw in (("range", {"s": 1, "e": None}), ("occ", {}), ("active", {}), ("iter", {}),
+                           ("project", {"k": 2, "m": 1, "iv": None}), ("prune", {"pred": {"kind": "all"}})):
+                yield _base(op, t, sp=sp, spbox=True, old=OLD_SAVED, **kw)
+    # lazy results: read-only calls between creation and the traversals, iterActive on the result, lazy operands
+    chains = [[{"op": "project", "k": 1, "m": 1, "iv": None}], [{"op": "prune", "pred": {"kind": "imask", "bits": [0, 1, 1]}}],
+              [{"op": "project", "k": -1, "m": 0, "iv": None}],
+              [{"op": "project", "k": 2, "m": 0, "iv": [0, 9]}, {"op": "prune", "pred": {"kind": "cmod", "a": 4, "b": 0}}]]
+    for t in fibs:
+        for kk, mm in ((1, 0), (2, 3), (-1, 5)):
+            for iv in (None, [kk * 1 + mm - (1 if kk > 0 else 0), kk * 1 + mm + 3]):
+                k += 1
+                if q and k % 2:
+                    continue
+                for btw in BETWEEN:
+                    yield _base("project", t, k=kk, m=mm, iv=iv, sp=None, between=btw)
+                for shape, active in ((None, None), (6, None), (None, [1, 3])):
+                    yield _base("project", t, k=kk, m=mm, iv=iv, sp=None, oact=True, shape=shape, active=active)
+                for ch in chains:
+                    yield _base("project", t, k=kk, m=mm, iv=iv, sp=None, chain=ch)
+        for btw in BETWEEN[:3]:
+            yield _base("prune", t, pred={"kind": "imask", "bits": [1, 0, 1]}, sp=None, between=btw)
+            yield _base("coashape", None, ts=[t, [[1, 1]]], between=btw)
+        yield _base("prune", t, pred={"kind": "all"}, sp=None, oact=True, active=[1, 3])
+        for ch in chains:
+            yield _base("prune", t, pred={"kind": "cmod", "a": 2, "b": 0}, sp=None, chain=ch)
+    # multi-digit coordinates (9 / 10 / 100: numeric, not textual, order)
+    for bits in itertools.product((None, 0, 1), repeat=len(WIDE)):
+        k += 1
+        if k % (97 if q else 11):
+            continue
+        t = [[c, v] for c, v in zip(WIDE, bits) if v is not None]
+        for op, kw in (("occ", {"sp": None}), ("range", {"s": 9, "e": 100, "sp": None}), ("range", {"s": 10, "e": 101, "sp": None}),
+                       ("shape", {}), ("ashape", {}), ("shaperef", {"shape": 103}), ("rshape", {"s": 8, "e": 103, "step": 7}),
+                       ("project", {"k": 1, "m": 1, "iv": [10, 101], "sp": None}), ("project", {"k": -1, "m": 109, "iv": None, "sp": None}),
+                       ("prune", {"pred": {"kind": "cmod", "a": 10, "b": 0}, "sp": None}), ("iter", {"fmt": "U"})):
+            yield _base(op, t, old=OLD_SAVED, **kw)
+        yield _base("coashape", None, ts=[t, [[9, 1], [100, 1]]])
+
+
+def gen_random_wide(seed, tier):
+    """the widened dimensions combined at random"""
+    rng = random.Random(seed * 104729 + 7)
+    nrand = 5000 if tier == "quick" else 200000
+    pool = (1, 2, -3, 7, 0)
+    for _ in range(nrand):
+        mode = rng.choice(["free", "root", "root", "sub", "sub"])
+        dflt = rng.choice([0, 0, 7])
+        n = rng.choice([3, 4, 6])
+        vk = rng.choice(["int", "int", "float", "str"])
+        d = 0 if mode == "free" else (rng.choice([0, 1, 1, 2]) if mode == "root" else rng.choice([0, 0, 1]))
+        depth = d + 1 + (1 if mode == "sub" else 0)
+        fmts = [rng.choice(["C", "C", "U"]) for _ in range(depth)]
+        tshape = None if rng.random() < 0.5 else [n + rng.randrange(0, 3) for _ in range(depth)]
+        active = None
+        if rng.random() < 0.3:
+            a = rng.randrange(-1, n + 1)
+            active = [a, a + rng.randrange(0, n + 2)]
+        extra = dict(d=d, dflt=dflt, active=active)
+        if vk != "int":
+            extra["vk"] = vk
+        whole = H.gen_tree(rng, depth, n, pool, dflt)
+        if mode == "sub" and not whole:
+            mode = "root"
+            d, depth = depth - 1, depth
+            extra["d"] = d
+        if mode == "free":
+            t = whole
+            extra.update(kind="free", fmt=fmts[0], shape=rng.choice([None, None, 0, n, n + 2]))
+            if rng.random() < 0.5:
+                extra["fmtvia"] = "setter"
+            lvl = 0
+        elif mode == "root":
+            t = whole
+            extra.update(kind="owned", fmt=fmts[0], fmts=fmts, tshape=tshape)
+            if tshape is None:
+                extra["sibs"] = [t]
+            else:
+                extra["shape"] = tshape[0]
+            if rng.random() < 0.15 and d == 0:
+                extra["fdflt"] = 0 if dflt else 7
+            lvl = 0
+        else:
+            idx = rng.randrange(len(whole))
+            t = whole[idx][1]
+            extra.update(kind="owned", fmt=fmts[1], fmts=fmts, tshape=tshape, root=whole, sub=idx)
+            if tshape is None:
+                extra["sibs"] = [x[1] for x in whole]
+            else:
+                extra["shape"] = tshape[1]
+            lvl = 1
+        if any(f == "U" for f in fmts[lvl + 1:]):
+            extra["lowerU"] = True
+        rb = lambda: rng.randrange(-2, n + 3)
+        ob = lambda: rng.choice([None, rng.randrange(-2, n + 3)])
+        sp = rng.choice([None, None] + list(range(len(t)))) if t else rng.choice([None, None, 0])
+        if sp is not None and rng.random() < 0.5:
+            extra["spbox"] = True
+        btw = [rng.choice(TOUCHES) for _ in range(rng.choice([1, 2, 3]))] if rng.random() < 0.4 else None
+        fam = rng.choice(["range", "shape", "co", "project", "project", "prune"])
+        if fam == "co" and mode == "sub":
+            fam = "shape"
+        if fam == "range":
+            yield _base(rng.choice(RANGE_OPS), t, s=ob(), e=ob(), sp=sp, old=OLD_SAVED, **extra)
+        elif fam == "shape":
+            yield _base(rng.choice(SHAPE_OPS), t, s=rb(), e=rb(), step=rng.choice([1, 2, 3, -1, -1, -2, -3]), **extra)
+        elif fam == "co":
+            ts = [t] + [H.gen_tree(rng, d + 1, n, pool, dflt) for _ in range(rng.choice([0, 1, 2]))]
+            if "sibs" in extra:
+                extra["sibs"] = [t]
+            extra.pop("spbox", None)
+            c = _base(rng.choice(CO_OPS), None, ts=ts, s=rb(), e=rb(), step=rng.choice([1, 2, -1, -2]), **extra)
+            if btw and d == 0:
+                c["between"] = btw
+            yield c
+        else:
+            kw = {}
+            if fam == "project":
+                k = rng.choice([1, 1, 2, 3, -1, -1, -2])
+                mm = rng.randrange(-4, 5)
+                iv = None
+                if rng.random() < 0.5:
+                    lo = k * rng.randrange(-1, n + 1) + mm + rng.choice([-1, 0, 1])
+                    iv = [lo, lo + rng.randrange(0, 2 * n)]
+                if k < 0 and rng.random() < 0.9:
+                    sp = None
+                kw = dict(k=k, m=mm, iv=iv)
+            else:
+                bits = [rng.choice([0, 1, 1, 2]) for _ in range(n + 3)]
+                kw = dict(pred=rng.choice([{"kind": "imask", "bits": bits}, {"kind": "cmod", "a": 2, "b": rng.choice([0, 1])},
+                                           {"kind": "all"}]))
+            r = rng.random()
+            if r < 0.2:
+                kw["oact"] = True
+            elif r < 0.45:
+                ch = []
+                for _ in range(rng.choice([1, 1, 2])):
+                    if rng.random() < 0.6:
+                        ch.append({"op": "project", "k": rng.choice([1, 1, 2, -1]), "m": rng.randrange(-2, 3),
+                                   "iv": rng.choice([None, None, [rng.randrange(-3, 3), rng.randrange(3, 12)]])})
+                    else:
+                        ch.append({"op": "prune", "pred": {"kind": "imask", "bits": [rng.choice([0, 1, 1]) for _ in range(n + 3)]}})
+                kw["chain"] = ch
+            elif r < 0.6:
+                kw["os"], kw["oe"] = ob(), ob()
+            if btw and d == 0:
+                kw["between"] = btw
+            if sp is None:
+                extra.pop("spbox", None)
+            yield _base(fam, t, sp=sp, **kw, **extra)
+
+
 # multi-step cases: the same fiber objects are traversed, read, grown and traversed again
 SEQ_FIRST = [{"op": "active"}, {"op": "ashape"}, {"op": "shape"}, {"op": "occ"}, {"op": "iter"}, {"op": "coashape"},
              {"op": "ashaperef"}] + [{"op": "touch", "what": w} for w in TOUCHES]
@@ -265,41 +533,111 @@ def gen_seq_random(seed, tier):
 def gen(seed, tier):
     yield from gen_small(tier)
     yield from gen_seq_small(tier)
+    yield from gen_wide_small(tier)
     yield from gen_random(seed, tier)
     yield from gen_seq_random(seed, tier)
+    yield from gen_random_wide(seed, tier)
 
 
 # ---------------------------------------------------------------------------------------
 # running the real code
 # ---------------------------------------------------------------------------------------
 
+def _enc(case, v):
+    """value kinds: the traversal code only compares leaf values with the default, so the model keeps integers
+    and the harness maps them injectively to floats / strings (and back in the observations)"""
+    vk = case.get("vk", "int")
+    if vk == "float":
+        return v + 0.5
+    if vk == "str":
+        return "s%d" % v
+    return v
+
+
+def _dec(x):
+    if isinstance(x, list):
+        return [_dec(y) for y in x]
+    if isinstance(x, dict) and "float" in x:
+        return int(float.fromhex(x["float"]) - 0.5)
+    if isinstance(x, str) and x[:1] == "s":
+        return int(x[1:])
+    return x
+
+
+def _snap(case, obj):
+    s = H.snapshot(obj)
+    return _dec(s) if case.get("vk", "int") != "int" else s
+
+
+def _mk(case, tree, depth, dflt):
+    """real Fiber objects through the public constructor, leaf values encoded"""
+    F = H.ft().Fiber
+    if depth == 1:
+        return F([c for c, _ in tree], [_enc(case, v) for _, v in tree], default=dflt)
+    return F([c for c, _ in tree], [_mk(case, sub, depth - 1, dflt) for _, sub in tree], default=dflt)
+
+
 def _build(case, tree):
-    """the fiber under test, configured as the case says (format, declared shape, active range, owner)"""
+    """the fiber under test, configured as the case says (format, declared / estimated extents, active range, owner,
+    target = the root or a fiber of the second rank)"""
     ft = H.ft()
-    d, dflt = case["d"], case["dflt"]
+    d, dflt = case["d"], _enc(case, case["dflt"])
     shape, active, fmt = case.get("shape"), case.get("active"), case.get("fmt", "C")
     act = tuple(active) if active is not None else None
     if case.get("kind") == "owned":
-        f = H.build_fiber(tree, d + 1, dflt)
-        ids = [f"R{d - i}" for i in range(d + 1)]
-        shp = [shape] + [64] * d
+        sub = case.get("sub")
+        depth = d + 1 + (1 if sub is not None else 0)
+        whole = case["root"] if sub is not None else tree
+        # the fibers may carry their own default, different from the tensor's: the rank's wins
+        f = _mk(case, whole, depth, _enc(case, case["fdflt"]) if "fdflt" in case else dflt)
+        ids = [f"R{depth - 1 - i}" for i in range(depth)]
+        if "tshape" in case:
+            shp = case["tshape"]            # None: every rank extent is estimated
+        else:
+            shp = [shape] + [64] * (depth - 1)
         t = ft.Tensor.fromFiber(rank_ids=ids, fiber=f, shape=shp, default=dflt)
-        t.setFormat(ids[0], fmt)
-        root = t.getRoot()
-        root.setActive(act)
-        return root, t
+        fmts = case.get("fmts") or ([fmt] + ["C"] * (depth - 1))
+        for rid, fm in zip(ids, fmts):
+            if fm != "C":
+                t.setFormat(rid, fm)
+        target = t.getRoot()
+        if sub is not None:
+            target = target.payloads[sub]
+        target.setActive(act)
+        return target, t
     F = ft.Fiber
     coords = [c for c, _ in tree]
     if d == 0:
-        payloads = [v for _, v in tree]
+        payloads = [_enc(case, v) for _, v in tree]
     else:
-        payloads = [H.build_fiber(s, d, dflt) for _, s in tree]
-    f = F(coords, payloads, default=dflt, shape=shape, rank_attrs=_RankAttrs()(fmt=fmt), active_range=act)
+        payloads = [_mk(case, s, d, dflt) for _, s in tree]
+    if case.get("fmtvia") == "setter":
+        f = F(coords, payloads, default=dflt, shape=shape, active_range=act)
+        f.getRankAttrs().setFormat(fmt)
+    else:
+        f = F(coords, payloads, default=dflt, shape=shape, rank_attrs=_RankAttrs()(fmt=fmt), active_range=act)
     return f, None
 
 
-def _rows(fiber, ys):
-    return [[c, H.pos_of(fiber.payloads, p), H.snapshot(p)] for c, p in ys]
+def _rows(case, fiber, ys):
+    return [[c, H.pos_of(fiber.payloads, p), _snap(case, p)] for c, p in ys]
+
+
+def _objs(x, acc=None):
+    """ids of every Payload / Fiber object reachable from a fiber"""
+    acc = set() if acc is None else acc
+    F = H.ft().Fiber
+    if isinstance(x, F):
+        acc.add(id(x))
+        for p in x.payloads:
+            _objs(p, acc)
+    else:
+        acc.add(id(x))
+    return acc
+
+
+def _distinct(objs):
+    return len({id(o) for o in objs}) == len(objs)
 
 
 def _pairs(it):
@@ -327,33 +665,50 @@ def _pred(spec):
     raise ValueError(kind)
 
 
+def _and(side, key, val):
+    side[key] = side.get(key, True) and bool(val)
+
+
+def _fresh_absent(side, fibers_objs, pairs):
+    """what stands in for an absent coordinate must be a fresh object: not stored in an operand, and pairwise
+    distinct (a shared placeholder would leak one caller's update into the next yield)"""
+    absent = [p for p in pairs if id(p) not in fibers_objs]
+    _and(side, "absent_payloads_fresh_and_distinct", _distinct(absent))
+
+
 def _traverse(case, op, fibers, side):
     """one traversal `op` (arguments in `case`) on already built fibers; returns the observation dict"""
     ft = H.ft()
     f = fibers[0]
     impl = {}
     sp = case.get("sp")
+    spa = ft.Payload(sp) if (sp is not None and case.get("spbox")) else sp
     try:
         if op in RANGE_OPS:
             f.setSavedPos(case.get("old", 0))
             if op == "range":
-                it = f.iterRange(case.get("s"), case.get("e"), start_pos=sp)
+                it = f.iterRange(case.get("s"), case.get("e"), start_pos=spa)
             elif op == "occ":
-                it = f.iterOccupancy(start_pos=sp)
+                it = f.iterOccupancy(start_pos=spa)
             elif op == "active":
-                it = f.iterActive(start_pos=sp)
+                it = f.iterActive(start_pos=spa)
             else:
-                it = f.__iter__(start_pos=sp)
+                it = f.__iter__(start_pos=spa)
             ys = _pairs(it)
-            impl["y1"] = _rows(f, ys)
-            impl["saved"] = f.getSavedPos()
+            impl["y1"] = _rows(case, f, ys)
+            impl["saved"] = ft.Payload.get(f.getSavedPos())
+            _fresh_absent(side, _objs(f), [p for _, p in ys])
         elif op in SHAPE_OPS:
             s, e, step = case.get("s"), case.get("e"), case.get("step", 1)
             it = {"rshape": lambda: f.iterRangeShape(s, e, step), "shape": f.iterShape, "ashape": f.iterActiveShape,
                   "rshaperef": lambda: f.iterRangeShapeRef(s, e, step), "shaperef": f.iterShapeRef,
                   "ashaperef": f.iterActiveShapeRef}[op]()
             ys = _pairs(it)
-            impl["y1"] = _rows(f, ys)
+            impl["y1"] = _rows(case, f, ys)
+            if op.endswith("ref"):
+                _and(side, "stored_payloads_distinct_objects", _distinct(list(f.payloads)))
+            else:
+                _fresh_absent(side, _objs(f), [p for _, p in ys])
         elif op in CO_OPS:
             s, e, step = case.get("s"), case.get("e"), case.get("step", 1)
             F = ft.Fiber
@@ -361,34 +716,63 @@ def _traverse(case, op, fibers, side):
                   "coashape": lambda: F.coiterActiveShape(fibers),
                   "corshaperef": lambda: F.coiterRangeShapeRef(fibers, s, e, step),
                   "coshaperef": lambda: F.coiterShapeRef(fibers), "coashaperef": lambda: F.coiterActiveShapeRef(fibers)}[op]()
+            for w in case.get("between", []):
+                _touch(w, f, case)
             y1 = _pairs(lz)
+            for w in case.get("between", []):
+                _touch(w, f, case)
             y2 = _pairs(lz)
             for key, ys in (("y1", y1), ("y2", y2)):
-                impl[key] = [[c, [[H.pos_of(fb.payloads, p), H.snapshot(p)] for fb, p in zip(fibers, ps)]] for c, ps in ys]
+                impl[key] = [[c, [[H.pos_of(fb.payloads, p), _snap(case, p)] for fb, p in zip(fibers, ps)]] for c, ps in ys]
             same = len(y1) == len(y2) and all(
                 c1 == c2 and all(a is b for a, b in zip(p1, p2)) for (c1, p1), (c2, p2) in zip(y1, y2)) \
                 if op.endswith("ref") else True
-            side["second_traversal_same_objects"] = side.get("second_traversal_same_objects", True) and same
-        elif op in ("project", "prune"):
-            if op == "project":
-                k, m = case["k"], case["m"]
-                iv = tuple(case["iv"]) if case.get("iv") is not None else None
-                lz = f.project(trans_fn=lambda c: k * c + m, interval=iv, start_pos=sp)
+            _and(side, "second_traversal_same_objects", same)
+            stored = set()
+            for fb in fibers:
+                _objs(fb, stored)
+            if op.endswith("ref"):
+                for fb in fibers:
+                    _and(side, "stored_payloads_distinct_objects", _distinct(list(fb.payloads)))
             else:
-                lz = f.prune(trans_fn=_pred(case["pred"]), start_pos=sp)
+                _fresh_absent(side, stored, [p for _, ps in y1 + y2 for p in ps])
+        elif op in ("project", "prune"):
+            def stage(src, st, spx):
+                if st["op"] == "project":
+                    k, m = st["k"], st["m"]
+                    iv = tuple(st["iv"]) if st.get("iv") is not None else None
+                    return src.project(trans_fn=lambda c: k * c + m, interval=iv, start_pos=spx)
+                return src.prune(trans_fn=_pred(st["pred"]), start_pos=spx)
+            lz = stage(f, dict(case, op=op), spa)
+            for st in case.get("chain", []):          # lazy fibers as operands of project / prune
+                lz = stage(lz, st, None)
             os_, oe_ = case.get("os"), case.get("oe")
-            plain = os_ is None and oe_ is None
-            trav = (lambda: lz) if plain else (lambda: lz.iterRange(os_, oe_))
+            plain = os_ is None and oe_ is None and not case.get("oact")
+            if case.get("oact"):
+                impl["act"] = list(lz.getActive())
+                trav = lambda: lz.iterActive()
+            elif plain:
+                trav = lambda: lz
+            else:
+                trav = lambda: lz.iterRange(os_, oe_)
+            for w in case.get("between", []):
+                _touch(w, f, case)
             y1 = _pairs(trav())
+            for w in case.get("between", []):
+                _touch(w, f, case)
             y2 = _pairs(trav())
-            impl["y1"] = _rows(f, y1)
-            impl["y2"] = _rows(f, y2)
+            impl["y1"] = _rows(case, f, y1)
+            impl["y2"] = _rows(case, f, y2)
             if plain:
                 mat = ft.Fiber.fromLazy(lz)
-                impl["mat"] = H.snapshot(mat)
-                eager = ft.Fiber([c for c, _ in y1], [p for _, p in y1], default=case["dflt"])
-                side["materialises_equal"] = side.get("materialises_equal", True) and bool(mat == eager)
-            side["lazy_is_lazy"] = side.get("lazy_is_lazy", True) and bool(lz.isLazy())
+                impl["mat"] = _snap(case, mat)
+                eager = ft.Fiber([c for c, _ in y1], [p for _, p in y1], default=_enc(case, case["dflt"]))
+                if not case.get("lowerU"):
+                    # (`==` between a fiber of a "U" rank and an unowned copy is format-sensitive: the U side
+                    # presents its explicit defaults to the union; that is C12's subject, the content is compared in Lean)
+                    _and(side, "materialises_equal", mat == eager)
+                _and(side, "materialised_shares_nothing_with_source", not (_objs(mat) & _objs(f)))
+            _and(side, "lazy_is_lazy", lz.isLazy())
         else:
             raise ValueError(op)
     except AssertionError:
@@ -398,15 +782,16 @@ def _traverse(case, op, fibers, side):
     return impl
 
 
-def _touch(what, f, dflt):
+def _touch(what, f, case):
     """a read-only public call whose result is not under test here: it must leave no trace"""
     ft = H.ft()
+    dflt = _enc(case, case["dflt"])
     if what == "getActive":
         f.getActive()
     elif what == "getShape":
         f.getShape(all_ranks=False)
     elif what == "eq":
-        f == ft.Fiber(list(f.coords), [p.value for p in f.payloads], default=dflt)
+        f == f
     elif what == "len":
         len(f)
     elif what == "project":
@@ -417,6 +802,19 @@ def _touch(what, f, dflt):
         f.isEmpty()
     elif what == "and":
         list(f & ft.Fiber(list(f.coords), [1 for _ in f.coords]))
+    elif what == "iter":
+        list(f)
+    elif what == "iterActive":
+        list(f.iterActive())
+    elif what == "iterShape":
+        list(f.iterShape())
+    elif what == "iterActiveShape":
+        list(f.iterActiveShape())
+    elif what == "getPayload":
+        f.getPayload(1)
+        f.getPayload(-5)
+    elif what == "countValues":
+        f.countValues()
     else:
         raise ValueError(what)
 
@@ -429,26 +827,26 @@ def _run_seq(case):
     pure = True
     for st in case["steps"]:
         op = st["op"]
-        before = [H.snapshot(x) for x in fibers]
+        before = [_snap(case, x) for x in fibers]
         o = {}
         if op == "append":
             try:
-                f.append(st["c"], st["v"])
+                f.append(st["c"], _enc(case, st["v"]))
             except AssertionError:
                 o["err"] = "rejected"
         elif op == "refassign":
             ref = f.getPayloadRef(st["c"])
-            ref <<= st["v"]
+            ref <<= _enc(case, st["v"])
         elif op == "touch":
             try:
-                _touch(st["what"], f, case["dflt"])
+                _touch(st["what"], f, case)
             except Exception as e:
                 o["err"] = H.err_class(e)
         else:
             sub = dict(case)
             sub.update(st)
             o = _traverse(sub, op, fibers if op in CO_OPS else [f], side)
-        after = [H.snapshot(x) for x in fibers]
+        after = [_snap(case, x) for x in fibers]
         o["before_all"], o["after_all"] = before, after
         o["after"] = after if op in CO_OPS else after[0]
         if not (op.endswith("ref") or op in ("append", "refassign")):
@@ -469,9 +867,9 @@ def run(case):
         fibers = [_build(case, t)[0] for t in case["ts"]]
     else:
         fibers = [_build(case, case["t"])[0]]
-    before = [H.snapshot(x) for x in fibers]
+    before = [_snap(case, x) for x in fibers]
     impl = _traverse(case, op, fibers, side)
-    after = [H.snapshot(x) for x in fibers]
+    after = [_snap(case, x) for x in fibers]
     impl["after"] = after if op.startswith("co") else after[0]
     if not op.endswith("ref"):
         side["operands_unchanged"] = before == after
